@@ -77,6 +77,9 @@ func (a lin) String() string {
 }
 
 type aseq struct{ e []aval } // array or slice literal
+
+// aacc is a local slice variable that a loop appends to: its elements are the emission list st.emits[key]
+type aacc struct{ key string }
 type asym struct{ s string }
 type aval interface{}
 
@@ -92,6 +95,8 @@ func avalString(v aval) string {
 		return "[" + strings.Join(p, " ; ") + "]"
 	case asym:
 		return x.s
+	case aacc:
+		return "acc:" + x.key
 	case nil:
 		return "?"
 	}
@@ -311,6 +316,12 @@ func (x *affExec) eval(e ast.Expr, st *affState) aval {
 		}
 		return asym{key}
 	case *ast.SliceExpr:
+		if v.Low == nil && v.High == nil {
+			// a[:] of a followed array / sequence value is the sequence itself
+			if sq, ok := x.eval(v.X, st).(aseq); ok {
+				return sq
+			}
+		}
 		lo, hi := "", ""
 		if v.Low != nil {
 			lo = x.canon(v.Low, st)
@@ -334,6 +345,11 @@ func (x *affExec) eval(e ast.Expr, st *affState) aval {
 					delete(st.env, o)
 				}
 				return asym{"&" + id.Name}
+			}
+			switch ast.Unparen(v.X).(type) {
+			case *ast.IndexExpr, *ast.SelectorExpr:
+				// &a[i] / &s.f: selectors through the pointer name the element itself (automatic dereference)
+				return asym{x.canon(v.X, st)}
 			}
 			return asym{"&" + x.canon(v.X, st)}
 		}
@@ -435,6 +451,9 @@ func (x *affExec) call(c *ast.CallExpr, st *affState) aval {
 			}
 		case "append":
 			base := x.eval(c.Args[0], st)
+			if sy, ok := base.(asym); ok && sy.s == "nil" {
+				base = aseq{}
+			}
 			if a, ok := base.(aseq); ok && !c.Ellipsis.IsValid() {
 				out := aseq{append([]aval{}, a.e...)}
 				for _, arg := range c.Args[1:] {
@@ -468,13 +487,14 @@ func (x *affExec) call(c *ast.CallExpr, st *affState) aval {
 					ns.env[sub.info.Defs[fd.Recv.List[0].Names[0]]] = x.eval(se.X, st)
 				}
 			}
+			argv := x.callArgs(c, st, fd.Type.Params.NumFields())
 			for _, fl := range fd.Type.Params.List {
 				for _, nm := range fl.Names {
-					if i >= len(c.Args) {
+					if i >= len(argv) {
 						okBind = false
 						break
 					}
-					ns.env[sub.info.Defs[nm]] = x.eval(c.Args[i], st)
+					ns.env[sub.info.Defs[nm]] = argv[i]
 					i++
 				}
 			}
@@ -544,6 +564,20 @@ func (x *affExec) call(c *ast.CallExpr, st *affState) aval {
 	return asym{s}
 }
 
+// callArgs evaluates the arguments of a call; f(g()) with a multi-value g is spread into its components.
+func (x *affExec) callArgs(c *ast.CallExpr, st *affState, want int) []aval {
+	if len(c.Args) == 1 && want > 1 {
+		if sq, ok := x.eval(c.Args[0], st).(aseq); ok && len(sq.e) == want {
+			return append([]aval{}, sq.e...)
+		}
+	}
+	out := make([]aval, len(c.Args))
+	for i, a := range c.Args {
+		out[i] = x.eval(a, st)
+	}
+	return out
+}
+
 // bindNamedResults gives the named results of an inlined function their zero values.
 func (x *affExec) bindNamedResults(fd *ast.FuncDecl, ns *affState) {
 	x.namedResults = nil
@@ -597,12 +631,13 @@ func (x *affExec) inlineStmtCall(c *ast.CallExpr, st *affState) ([]*affState, bo
 		}
 	}
 	i := 0
+	argv := x.callArgs(c, st, fd.Type.Params.NumFields())
 	for _, fl := range fd.Type.Params.List {
 		for _, nm := range fl.Names {
-			if i >= len(c.Args) {
+			if i >= len(argv) {
 				return nil, false
 			}
-			ns.env[sub.info.Defs[nm]] = x.eval(c.Args[i], st)
+			ns.env[sub.info.Defs[nm]] = argv[i]
 			i++
 		}
 	}
@@ -620,6 +655,7 @@ func (x *affExec) inlineStmtCall(c *ast.CallExpr, st *affState) ([]*affState, bo
 			// whole-value assignment inside the callee replaces, append extends: the callee state started empty, so extend
 			n.emits[k] = append(n.emits[k], v...)
 		}
+		n.ret, n.hasRet = o.ret, o.hasRet
 		res = append(res, n)
 	}
 	return res, true
@@ -679,6 +715,12 @@ func (x *affExec) assignTo(lhs ast.Expr, v aval, st *affState, pos token.Pos) {
 				st.emits[key] = items
 			} else if sy, ok := v.(asym); ok && sy.s == "nil" {
 				st.emits[key] = []affItem{}
+			} else if ac, ok := v.(aacc); ok {
+				if items, known := st.emits[ac.key]; known {
+					st.emits[key] = append([]affItem{}, items...)
+				} else {
+					st.emits[key] = []affItem{{val: v}}
+				}
 			} else {
 				st.emits[key] = []affItem{{val: v}}
 			}
@@ -745,6 +787,43 @@ func (x *affExec) assignedIn(body *ast.BlockStmt) (idents map[types.Object]strin
 	return
 }
 
+// onlyAppendedTo: every assignment to o inside body has the form o = append(o, ...)
+func (x *affExec) onlyAppendedTo(body *ast.BlockStmt, o types.Object) bool {
+	ok := true
+	ast.Inspect(body, func(n ast.Node) bool {
+		switch s := n.(type) {
+		case *ast.FuncLit:
+			return false
+		case *ast.IncDecStmt:
+			if id, isId := s.X.(*ast.Ident); isId && x.info.Uses[id] == o {
+				ok = false
+			}
+		case *ast.AssignStmt:
+			for i, l := range s.Lhs {
+				id, isId := l.(*ast.Ident)
+				if !isId || x.info.Uses[id] != o {
+					continue
+				}
+				good := false
+				if s.Tok == token.ASSIGN && len(s.Lhs) == len(s.Rhs) {
+					if c, isC := s.Rhs[i].(*ast.CallExpr); isC && len(c.Args) >= 1 {
+						if b, isB := calleeObj(x.info, c).(*types.Builtin); isB && b.Name() == "append" {
+							if a0, isId := c.Args[0].(*ast.Ident); isId && x.info.Uses[a0] == o {
+								good = true
+							}
+						}
+					}
+				}
+				if !good {
+					ok = false
+				}
+			}
+		}
+		return true
+	})
+	return ok
+}
+
 func rootIdentOf(e ast.Expr) *ast.Ident {
 	for {
 		switch v := e.(type) {
@@ -769,6 +848,39 @@ func (x *affExec) stmt(s ast.Stmt, st *affState) []*affState {
 	case *ast.EmptyStmt:
 		return []*affState{st}
 	case *ast.AssignStmt:
+		// x := f(...) / x, y := f(...) with f a followed function of several paths: one successor state per path of f
+		if len(v.Rhs) == 1 && (v.Tok == token.DEFINE || v.Tok == token.ASSIGN) {
+			if call, ok := ast.Unparen(v.Rhs[0]).(*ast.CallExpr); ok {
+				if _, isB := calleeObj(x.info, call).(*types.Builtin); !isB {
+					if outs, ok := x.inlineStmtCall(call, st); ok && len(outs) > 1 {
+						allRet := true
+						for _, o := range outs {
+							if !o.hasRet {
+								allRet = false
+							}
+						}
+						if allRet {
+							for _, o := range outs {
+								rv := o.ret
+								o.ret, o.hasRet = st.ret, st.hasRet
+								if len(v.Lhs) == 1 {
+									x.assignTo(v.Lhs[0], rv, o, v.Pos())
+								} else if sq, ok := rv.(aseq); ok && len(sq.e) == len(v.Lhs) {
+									for i, l := range v.Lhs {
+										x.assignTo(l, sq.e[i], o, v.Pos())
+									}
+								} else {
+									for i, l := range v.Lhs {
+										x.assignTo(l, asym{fmt.Sprintf("%s#%d", avalString(rv), i)}, o, v.Pos())
+									}
+								}
+							}
+							return outs
+						}
+					}
+				}
+			}
+		}
 		if len(v.Lhs) == len(v.Rhs) {
 			vals := make([]aval, len(v.Rhs))
 			skip := make([]bool, len(v.Rhs))
@@ -776,8 +888,15 @@ func (x *affExec) stmt(s ast.Stmt, st *affState) []*affState {
 				// append to X.Points
 				if c, ok := v.Rhs[i].(*ast.CallExpr); ok {
 					if b, ok := calleeObj(x.info, c).(*types.Builtin); ok && b.Name() == "append" {
+						key := ""
 						if se, ok := c.Args[0].(*ast.SelectorExpr); ok && se.Sel.Name == "Points" && sameExpr(v.Lhs[i], c.Args[0]) {
-							key := x.lvalueKey(se, st)
+							key = x.lvalueKey(se, st)
+						} else if id, ok := c.Args[0].(*ast.Ident); ok && sameExpr(v.Lhs[i], c.Args[0]) {
+							if ac, ok := st.env[x.info.Uses[id]].(aacc); ok {
+								key = ac.key
+							}
+						}
+						if key != "" {
 							for _, a := range c.Args[1:] {
 								val := x.eval(a, st)
 								if c.Ellipsis.IsValid() {
@@ -787,10 +906,18 @@ func (x *affExec) stmt(s ast.Stmt, st *affState) []*affState {
 										}
 										continue
 									}
+									if ac, ok := val.(aacc); ok {
+										if items, known := st.emits[ac.key]; known && ac.key != key {
+											st.emits[key] = append(st.emits[key], items...)
+											continue
+										}
+									}
 								}
 								st.emits[key] = append(st.emits[key], affItem{val: val})
 							}
-							st.stores = append(st.stores, affStore{key, asym{"append"}, v.Pos()})
+							if !strings.HasPrefix(key, "$") {
+								st.stores = append(st.stores, affStore{key, asym{"append"}, v.Pos()})
+							}
 							skip[i] = true
 							continue
 						}
@@ -911,7 +1038,11 @@ func (x *affExec) stmt(s ast.Stmt, st *affState) []*affState {
 			if b, ok := calleeObj(x.info, c).(*types.Builtin); ok && b.Name() == "panic" {
 				return nil // panicking paths are dropped
 			}
+			ret0, has0 := st.ret, st.hasRet
 			if outs, ok := x.inlineStmtCall(c, st); ok {
+				for _, o := range outs {
+					o.ret, o.hasRet = ret0, has0
+				}
 				return outs
 			}
 			x.eval(c, st)
@@ -1199,6 +1330,45 @@ func (x *affExec) loop(s ast.Stmt, st *affState) []*affState {
 		}
 	}
 	idents, cells := x.assignedIn(body)
+	// local slices that the body only appends to become emission targets; other non-numeric locals assigned in the body are
+	// unknown after the loop
+	var havoc []types.Object
+	for o, name := range idents {
+		if o == nil || isNumeric(o.Type()) {
+			continue
+		}
+		cur, defined := st.env[o]
+		if !defined {
+			continue
+		}
+		if _, isAcc := cur.(aacc); isAcc {
+			continue
+		}
+		if _, isSlice := o.Type().Underlying().(*types.Slice); isSlice && x.onlyAppendedTo(body, o) {
+			var items []affItem
+			okInit := false
+			switch c := cur.(type) {
+			case aseq:
+				okInit = true
+				for _, e := range c.e {
+					items = append(items, affItem{val: e})
+				}
+			case asym:
+				okInit = c.s == "nil"
+			}
+			if okInit {
+				key := fmt.Sprintf("$%s@%d", name, o.Pos())
+				if items == nil {
+					items = []affItem{}
+				}
+				st.emits[key] = items
+				st.env[o] = aacc{key}
+				inner.env[o] = aacc{key}
+				continue
+			}
+		}
+		havoc = append(havoc, o)
+	}
 	pre := map[types.Object]string{}
 	for o, name := range idents {
 		if cur, defined := st.env[o]; defined {
@@ -1277,6 +1447,9 @@ func (x *affExec) loop(s ast.Stmt, st *affState) []*affState {
 	}
 	for key := range preCells {
 		st.heap[key] = linAtom(fmt.Sprintf("final(%s)@L%d", key, ls.id))
+	}
+	for _, o := range havoc {
+		st.env[o] = asym{fmt.Sprintf("final(%s)@L%d", o.Name(), ls.id)}
 	}
 	// emissions of the body become a star item per target
 	targets := map[string]bool{}
